@@ -821,6 +821,10 @@ class Interp:
             names = s.p.clo_on_line.get((f.tag, ln), [])
             if names: name = names[0]
         if name is None: raise Unsupported(f'closure identity {ty} at {f.name}:{ln}')
+        if name not in s.p.fns and re.search(r'\w<[A-Za-z_][\w, ]*>::', name):
+            # the verbose dump spells generic parameters of enclosing items (`f::helper<V>::{closure#0}`), item names do not
+            bare = re.sub(r'(?<=\w)<[A-Za-z_][\w, ]*>(?=::)', '', name)
+            if bare in s.p.fns or any(n.endswith(bare) for n in s.p.fns): name = bare
         if name not in s.p.fns:
             c = [n for n in s.p.fns if n.endswith(name)]
             if len(c) == 1: name = c[0]
@@ -1028,6 +1032,11 @@ class Interp:
              'std::result::Result<u64, u8>': 16, 'std::option::Option<u64>': 16, 'std::option::Option<usize>': 16, '(u64, u64)': 16, '(u64, u64, u64)': 24}
     def size_of(s, ctx, ty):
         ty = re.sub(r"'\w+ ", '', ty.strip())
+        # associated-type projections that name a plain type: `<Box<T> as Deref>::Target` is `T`
+        for _ in range(4):
+            mm = re.match(r'^<(?:[\w]+::)*(?:Box|Rc|Arc)<(.*)> as (?:[\w]+::)*Deref>::Target$', ty) or re.match(r'^<&(?:mut )?(.*) as (?:[\w]+::)*Deref>::Target$', ty)
+            if not mm: break
+            ty = mm.group(1).strip()
         if ty in s.SIZES: return s.SIZES[ty]
         if ty.startswith('&') and ty.endswith(']'): return 16
         if ty.startswith('&') : return 16 if ty in ('&str',) or ty.startswith('&dyn') else 8
